@@ -137,15 +137,16 @@ def votes {F} (o : NumOracle F) : List Int â†’ List Str â†’ Int
   | ty :: tys, h :: hs => voteOf o ty h + votes o tys hs
   | _, _ => 0
 
-/-- `has_header(is, lines = 20, delim)`: rows of irregular width are skipped, at most
-    `lines + 2` rows are looked at (`if (checked++ > lines) break`) -/
-def hasHeader {F} (o : NumOracle F) (lines : List Str) (delim : Char) : Bool :=
+/-- `has_header(is, lines = n, delim)`: rows of irregular width are skipped, at most
+    `lines + 2` rows are looked at (`if (checked++ > lines) break`).  The sniffer passes
+    `lines = 20`; nothing proved below depends on the value. -/
+def hasHeader {F} (o : NumOracle F) (n : Nat) (lines : List Str) (delim : Char) : Bool :=
   let nb := lines.filter (fun l => !isBlank l)
   let header := match nb with
     | [] => []
     | l :: _ => parseLine { delim := delim, keepQuotes := true } l
   let rows := (nb.drop 1).map (parseLine { delim := delim })
-  let same := (rows.filter (fun r => r.length == header.length)).take 22
+  let same := (rows.filter (fun r => r.length == header.length)).take (n + 2)
   let types := same.foldl (fun tys r => stepTypes o tys header r) (List.replicate header.length noneTag)
   decide (votes o types header > 0)
 
@@ -179,9 +180,10 @@ def maxByWeight : (Char Ã— Nat Ã— Nat) â†’ List (Char Ã— Nat Ã— Nat) â†’ (Char Ã
   | best, [] => best
   | best, x :: xs => if best.2.2 < x.2.2 then maxByWeight x xs else maxByWeight best xs
 
-/-- `guess_delimiter(is, lines = 20)`; the result `'\x00'` stands for "no delimiter" -/
-def guessDelimiter (lines : List Str) : Char :=
-  let nb := (lines.filter (fun l => !isBlank l)).take 20
+/-- `guess_delimiter(is, lines = n)`: the first `n` non-blank lines are inspected; the result
+    `'\x00'` stands for "no delimiter" -/
+def guessDelimiter (n : Nat) (lines : List Str) : Char :=
+  let nb := (lines.filter (fun l => !isBlank l)).take n
   if nb.isEmpty then '\x00'
   else
     let scanned := nb.length
@@ -194,9 +196,9 @@ def guessDelimiter (lines : List Str) : Char :=
       else if 3 * res.2.2 < 2 * scanned then '\x00'
       else res.1
 
-/-- `pocket_csv::sniffer`: (delimiter, has_header) -/
-def sniffer {F} (o : NumOracle F) (lines : List Str) : Char Ã— Bool :=
-  let d := guessDelimiter lines
-  (d, hasHeader o lines d)
+/-- `pocket_csv::sniffer` (`const std::size_t lines(20)` is the parameter `n`): (delimiter, has_header) -/
+def sniffer {F} (o : NumOracle F) (n : Nat) (lines : List Str) : Char Ã— Bool :=
+  let d := guessDelimiter n lines
+  (d, hasHeader o n lines d)
 
 end Vita.C09
